@@ -578,6 +578,11 @@ func (n *c06Norm) block(l []ast.Stmt) []ast.Stmt {
 				}
 			}
 		}
+		if is, ok := s.(*ast.IfStmt); ok {
+			if loop := n.membershipLoop(is); loop != nil {
+				s = loop
+			}
+		}
 		// inside compound statements
 		switch x := s.(type) {
 		case *ast.IfStmt:
@@ -897,4 +902,97 @@ func c06BreaksOut(l []ast.Stmt) bool {
 		ast.Inspect(s, walk)
 	}
 	return found
+}
+
+// `if H(…) { S }` where the helper H answers "is K an element of L":
+//
+//	for _, x := range L { if x == K { return true } } ; return false        (or  for i := range L { if L[i] == K … })
+//
+// is the loop `for _, x := range L { if x == K { S; break } }` (S runs once iff K is in L), provided S neither leaves
+// nor continues an enclosing statement.
+func (n *c06Norm) membershipLoop(is *ast.IfStmt) *ast.RangeStmt {
+	if is.Init != nil || is.Else != nil {
+		return nil
+	}
+	call, ok := c06Unparen(is.Cond).(*ast.CallExpr)
+	if !ok {
+		return nil
+	}
+	fd := n.helper(call)
+	if fd == nil || fd.Type.Results == nil || fd.Type.Results.NumFields() != 1 || len(fd.Body.List) != 2 {
+		return nil
+	}
+	if r, ok := fd.Body.List[1].(*ast.ReturnStmt); !ok || len(r.Results) != 1 || c06Squash(c06ExprString(r.Results[0])) != "false" {
+		return nil
+	}
+	for _, st := range is.Body.List {
+		leaves := false
+		ast.Inspect(st, func(m ast.Node) bool {
+			switch m.(type) {
+			case *ast.BranchStmt, *ast.ReturnStmt:
+				leaves = true
+			}
+			return !leaves
+		})
+		if leaves {
+			return nil
+		}
+	}
+	inst := n.instantiate(fd, call, map[string]bool{})
+	if len(inst) != 2 {
+		return nil
+	}
+	rs, ok := inst[0].(*ast.RangeStmt)
+	if !ok || rs.Tok != token.DEFINE || len(rs.Body.List) != 1 {
+		return nil
+	}
+	inner, ok := rs.Body.List[0].(*ast.IfStmt)
+	if !ok || inner.Init != nil || inner.Else != nil || len(inner.Body.List) != 1 {
+		return nil
+	}
+	if r, ok := inner.Body.List[0].(*ast.ReturnStmt); !ok || len(r.Results) != 1 || c06Squash(c06ExprString(r.Results[0])) != "true" {
+		return nil
+	}
+	be, ok := c06Unparen(inner.Cond).(*ast.BinaryExpr)
+	if !ok || be.Op != token.EQL {
+		return nil
+	}
+	elem := "key"
+	if v, ok := rs.Value.(*ast.Ident); ok && v.Name != "_" {
+		elem = v.Name
+	} else if rs.Value == nil {
+		// for i := range L { if L[i] == K … }: name the element
+		i, ok := rs.Key.(*ast.Ident)
+		if !ok {
+			return nil
+		}
+		li := c06Squash(c06ExprString(rs.X)) + "[" + i.Name + "]"
+		switch {
+		case c06Squash(c06ExprString(be.X)) == li:
+			be.X = ast.NewIdent(elem)
+		case c06Squash(c06ExprString(be.Y)) == li:
+			be.Y = ast.NewIdent(elem)
+		default:
+			return nil
+		}
+		if c06Idents(be)[i.Name] {
+			return nil
+		}
+	} else {
+		return nil
+	}
+	if n.names[elem] {
+		return nil // the element's name is taken in the caller
+	}
+	body := append(append([]ast.Stmt{}, is.Body.List...), &ast.BranchStmt{Tok: token.BREAK})
+	return &ast.RangeStmt{Key: ast.NewIdent("_"), Value: ast.NewIdent(elem), Tok: token.DEFINE, X: rs.X,
+		Body: &ast.BlockStmt{List: []ast.Stmt{&ast.IfStmt{Cond: be, Body: &ast.BlockStmt{List: body}}}}}
+}
+
+func c06ExprString(e ast.Expr) string {
+	var buf bytes.Buffer
+	if err := printer.Fprint(&buf, token.NewFileSet(), e); err != nil {
+		return ""
+	}
+	return buf.String()
 }
